@@ -80,6 +80,7 @@ func c20Pad(prefix, suffix string, n int) string {
 type c20Decl struct {
 	Kind string    `json:"kind"`
 	Name string    `json:"name"`
+	Recv string    `json:"recv"` // methods: "(*T)" or "T"
 	Doc  []c20Line `json:"doc"`
 	Body []c20Line `json:"body"`
 	Tl   []c20Line `json:"tl"`
@@ -93,7 +94,16 @@ type c20File struct {
 	Ext   string    `json:"ext"`
 	Pkg   string    `json:"pkg"`
 	Hdr   []c20Line `json:"hdr"`
+	Imp   []c20Line `json:"imp"` // comment lines on top of the import declaration (none: no import declaration)
+	Text  c20Text   `json:"text"`
 	Decls []c20Decl `json:"decls"`
+}
+
+// c20Text: how the text is stored - line ends, byte-order mark, missing newline at the end of the file.
+type c20Text struct {
+	Eol  string `json:"eol"`
+	Bom  int    `json:"bom"`
+	Nonl int    `json:"nonl"`
 }
 
 type c20Case struct {
@@ -126,6 +136,10 @@ func c20Normalise(c *c20Case) {
 			f.Dir = []string{}
 		}
 		f.Hdr = c20NN(f.Hdr)
+		f.Imp = c20NN(f.Imp)
+		if f.Text.Eol == "" {
+			f.Text.Eol = "lf"
+		}
 		if f.Decls == nil {
 			f.Decls = []c20Decl{}
 		}
@@ -165,10 +179,17 @@ func c20Comment(ln c20Line, name, indent string, sameLine bool) []string {
 		}
 		return []string{indent + "//go:redirect-from " + sym}
 	case "D":
-		if sym == "" || c20Variant(sym)%2 == 0 {
-			return []string{indent + "//go:noinline"}
+		switch c20Variant(name + sym) {
+		case 0:
+			return []string{indent + "//go:nosplit"}
+		case 1:
+			return []string{indent + "//go:linkname " + name + " " + sym}
+		case 2:
+			return []string{indent + "//go:generate echo //go:redirect-from " + sym}
+		case 3:
+			return []string{indent + "//go:build amd64"}
 		}
-		return []string{indent + "//go:linkname " + name + " " + sym}
+		return []string{indent + "//go:noinline"}
 	case "S":
 		return []string{indent + "// go:redirect-from " + sym}
 	case "M":
@@ -180,6 +201,14 @@ func c20Comment(ln c20Line, name, indent string, sameLine bool) []string {
 		return []string{indent + "/*", "//go:redirect-from " + sym, indent + "*/"}
 	case "B":
 		return []string{""}
+	}
+	switch c20Variant(sym + name) { // prose: the repository's own style ends doc comments with a bare //
+	case 0:
+		return []string{indent + "//"}
+	case 1:
+		return []string{indent + "//\t" + name + "(a) // indented example"}
+	case 2:
+		return []string{indent + "//nolint:" + name}
 	}
 	if sym == "" {
 		return []string{indent + "// " + name + " is described here."}
@@ -209,7 +238,14 @@ func c20RenderDecl(d c20Decl) []string {
 		code = append(code, body...)
 		code = append(code, "\treturn a + 1", "}")
 	case "method":
-		code = append(code, "func (r *Recv"+d.Name+") "+d.Name+"(a int) int {")
+		recv := d.Recv
+		if recv == "" {
+			recv = "(*Recv" + d.Name + ")"
+		}
+		if strings.HasPrefix(recv, "(*") {
+			recv = "*" + strings.TrimSuffix(recv[2:], ")")
+		}
+		code = append(code, "func (r "+recv+") "+d.Name+"(a int) int {")
 		code = append(code, body...)
 		code = append(code, "\treturn a + 1", "}")
 	case "varfunc":
@@ -266,11 +302,25 @@ func c20RenderFile(f c20File) string {
 		pkg = "kernel"
 	}
 	out = append(out, "package "+pkg, "")
+	if len(f.Imp) > 0 {
+		out = append(out, c20Comments(f.Imp, "unsafe", "", false)...)
+		out = append(out, "import \"unsafe\"", "")
+	}
 	for _, d := range f.Decls {
 		out = append(out, c20RenderDecl(d)...)
 		out = append(out, "")
 	}
-	return strings.Join(out, "\n")
+	text := strings.Join(out, "\n")
+	if f.Text.Nonl == 1 {
+		text = strings.TrimRight(text, "\n")
+	}
+	if f.Text.Eol == "crlf" {
+		text = strings.Replace(text, "\n", "\r\n", -1)
+	}
+	if f.Text.Bom == 1 {
+		text = "\xef\xbb\xbf" + text
+	}
+	return text
 }
 
 func c20Materialise(c c20Case, root string) error {
@@ -574,11 +624,14 @@ func TestVerifC20Run(t *testing.T) {
 
 // ---------------------------------------------------------------- seeded generator of trees at real scale (leg T)
 
-var c20Segs = []string{"mm", "vmm", "pmm", "arch", "amd64", "rt0", "goruntime", "kfmt", "hal", "device", "acpi", "tty", "sync", "cpu"}
+var c20Segs = []string{"mm", "vmm", "pmm", "arch", "amd64", "rt0", "goruntime", "kfmt", "hal", "device", "acpi", "tty", "sync", "cpu",
+	"lib.go", "unit_test.go", "x-y", "v1.2", "internal"}
+var c20FnNames = []string{"init", "main", "_", "Gr\u00f6\u00dfe", "\u03c3tart"}
 var c20Names = []string{"bootstrap", "panic", "alloc", "map", "vmm", "my_test_util", "testing", "x_test_y", "contest", "init", "doc", "walk", "tlb", "fmt"}
 var c20Others = []string{".s", ".txt", ".go.bak", ".inc", ".golden", ".gox", ".md"}
 var c20Syms = []string{"runtime.sysAlloc", "runtime.sysMap", "runtime.sysReserve", "runtime.nanotime", "runtime.gopanic", "runtime.throw",
-	"runtime.(*mheap).alloc", "runtime/internal/atomic.Load", "sync.(*Mutex).Lock", "runtime.getRandomData", "runtime.init", "runtime.mallocinit"}
+	"runtime.(*mheap).alloc", "runtime/internal/atomic.Load", "sync.(*Mutex).Lock", "runtime.getRandomData", "runtime.init", "runtime.mallocinit",
+	"runtime\u00b7memclrNoHeapPointers", "main.h\u00e9llo", "runtime.(*itabTableType).add-fm", "type..eq.runtime._defer"}
 
 func c20RandLines(rng *rand.Rand, n int, types string, ctr *int, maxR int) []c20Line {
 	out := []c20Line{}
@@ -594,7 +647,7 @@ func c20RandLines(rng *rand.Rand, n int, types string, ctr *int, maxR int) []c20
 		sym := ""
 		if t != "B" && !(t == "T" && rng.Intn(2) == 0) {
 			sym = c20Syms[rng.Intn(len(c20Syms))]
-			if t == "R" || rng.Intn(4) != 0 { // annotations of a tree are pairwise different; look-alikes may repeat a symbol
+			if (t == "R" && rng.Intn(12) != 0) || (t != "R" && rng.Intn(4) != 0) { // now and then the same symbol is annotated again
 				*ctr++
 				sym += strconv.Itoa(*ctr)
 			}
@@ -614,7 +667,7 @@ func c20RandTree(rng *rand.Rand, maxFiles int) c20Case {
 	dirs := [][]string{{}}
 	for len(dirs) < ndirs {
 		p := dirs[rng.Intn(len(dirs))]
-		if len(p) >= 3 {
+		if len(p) >= 6 || (len(p) >= 3 && rng.Intn(3) != 0) {
 			continue
 		}
 		d := append(append([]string{}, p...), c20Segs[rng.Intn(len(c20Segs))])
@@ -647,11 +700,22 @@ func c20RandTree(rng *rand.Rand, maxFiles int) c20Case {
 			f.Pkg = "main"
 		case len(f.Dir) == 0:
 			f.Pkg = "kernel"
-		default:
-			f.Pkg = f.Dir[len(f.Dir)-1]
+		default: // the package clause needs an identifier; the directory name may be anything
+			f.Pkg = strings.Map(func(r rune) rune {
+				if r == '.' || r == '-' {
+					return '_'
+				}
+				return r
+			}, f.Dir[len(f.Dir)-1])
 		}
 		if rng.Intn(6) == 0 {
 			f.Hdr = c20RandLines(rng, 1+rng.Intn(3), "RTTDB", &ctr, 2)
+		}
+		if rng.Intn(6) == 0 {
+			f.Imp = c20RandLines(rng, 1+rng.Intn(3), "RTDSB", &ctr, 2)
+		}
+		if rng.Intn(5) == 0 {
+			f.Text = c20Text{Eol: []string{"lf", "crlf"}[rng.Intn(2)], Bom: rng.Intn(2), Nonl: rng.Intn(2)}
 		}
 		nd := rng.Intn(9)
 		for di := 0; di < nd; di++ {
@@ -675,11 +739,20 @@ func c20RandTree(rng *rand.Rand, maxFiles int) c20Case {
 			}
 			ctr++
 			d.Name = []string{"fn", "Sys", "early", "Do"}[rng.Intn(4)] + strconv.Itoa(ctr)
-			types := "RRRRRRRTTTTTTDDSMKBB"
-			if d.Kind == "method" {
-				types = "SSTTTTTTDDSMKBB" // annotated methods are outside the property's domain
+			if rng.Intn(15) == 0 {
+				d.Name = c20FnNames[rng.Intn(len(c20FnNames))]
+				if rng.Intn(2) == 0 && d.Name != "_" && d.Name != "init" {
+					d.Name += strconv.Itoa(ctr)
+				}
 			}
-			if rng.Intn(4) != 0 {
+			if d.Kind == "method" {
+				d.Recv = []string{"(*Dev" + strconv.Itoa(ctr%7) + ")", "Dev" + strconv.Itoa(ctr%7)}[rng.Intn(2)]
+			}
+			types := "RRRRRRRTTTTTTDDSMKBB"
+			switch x := rng.Intn(20); {
+			case x == 0: // many annotations on one function
+				d.Doc = c20RandLines(rng, 4+rng.Intn(8), "RRRRTD", &ctr, 8)
+			case x < 16:
 				d.Doc = c20RandLines(rng, rng.Intn(6), types, &ctr, 3)
 			}
 			if rng.Intn(5) == 0 {
@@ -699,7 +772,7 @@ func c20RandTree(rng *rand.Rand, maxFiles int) c20Case {
 	return c
 }
 
-var c20Widths = []int{65535, 65536, 65537, 100000, 70000, 131072, 1 << 20}
+var c20Widths = []int{4095, 4096, 4097, 32768, 65535, 65536, 65537, 100000, 70000, 131072, 1 << 20}
 
 // c20Widen gives a tree the input-size dimension: very long source lines (a string literal in a var/const
 // declaration, a // comment, a /* */ comment) before, between and after annotated functions.
@@ -779,7 +852,17 @@ func c20ScaleTrees(rng *rand.Rand) []c20Case {
 		deep.Files = append(deep.Files, c20File{Dir: d, Name: "level" + strconv.Itoa(i), Ext: ".go", Pkg: d[len(d)-1],
 			Decls: []c20Decl{fn("deepfn"+strconv.Itoa(i), 1), fn("deepfm"+strconv.Itoa(i), 1)}})
 	}
-	out := []c20Case{bigdir, bigfile, deep}
+	out := []c20Case{bigdir, bigfile, deep, {}} // the last one: a tree without any file
+	// an annotation that straddles a 4 KiB / 8 KiB / 32 KiB / 64 KiB / 128 KiB offset of its file (readers with fixed-size chunks):
+	// "package p\n\n" is 11 bytes, the long // line takes n+1, so the annotation line starts at offset 12+n = boundary-k
+	for _, b := range []int{4096, 8192, 32768, 65536, 131072} {
+		for _, k := range []int{0, 1, 9, 17, 18, 19, 30} {
+			d := fn("edge"+strconv.Itoa(b)+"x"+strconv.Itoa(k), 1)
+			d.Doc = append([]c20Line{{T: "T", N: b - k - 12}}, d.Doc...)
+			out = append(out, c20Case{Files: []c20File{{Dir: []string{"mm"}, Name: "edge", Ext: ".go", Pkg: "p",
+				Decls: []c20Decl{d, fn("after"+strconv.Itoa(k), 2)}}}})
+		}
+	}
 	for i := range out {
 		c20Normalise(&out[i])
 	}
@@ -795,6 +878,7 @@ type c20SrcLine struct {
 }
 
 func c20Lex(src string) []c20SrcLine {
+	src = strings.Replace(strings.TrimPrefix(src, "\xef\xbb\xbf"), "\r\n", "\n", -1)
 	var lines []c20SrcLine
 	cur := c20SrcLine{}
 	var code, com strings.Builder
@@ -955,7 +1039,8 @@ func c20Ident(s string) string {
 }
 
 // c20ScanSource describes one Go source text as header comments, package name and top-level declarations.
-func c20ScanSource(src string) (hdr []c20Line, pkg string, decls []c20Decl) {
+func c20ScanSource(src string) (hdr []c20Line, pkg string, imp []c20Line, decls []c20Decl) {
+	seenImport := false
 	var pending []c20Line
 	afterDecl := false
 	var cur *c20Decl // declaration being read (nil at top level); keep=false for imports and the like
@@ -1008,6 +1093,12 @@ func c20ScanSource(src string) (hdr []c20Line, pkg string, decls []c20Decl) {
 						} else if rest[i] == ')' {
 							n--
 							if n == 0 {
+								if fs := strings.Fields(rest[1:i]); len(fs) > 0 { // receiver type: the last word
+									d.Recv = fs[len(fs)-1]
+									if strings.HasPrefix(d.Recv, "*") {
+										d.Recv = "(" + d.Recv + ")"
+									}
+								}
 								rest = rest[i+1:]
 								break
 							}
@@ -1026,6 +1117,9 @@ func c20ScanSource(src string) (hdr []c20Line, pkg string, decls []c20Decl) {
 				}
 				cur, keep = &d, true
 			default:
+				if word == "import" && !seenImport {
+					seenImport, imp = true, trimB(pending)
+				}
 				cur, keep = &c20Decl{}, false
 			}
 			pending = nil
@@ -1061,7 +1155,7 @@ func c20ScanSource(src string) (hdr []c20Line, pkg string, decls []c20Decl) {
 	if afterDecl && len(pending) > 0 && len(decls) > 0 {
 		decls[len(decls)-1].Ta = pending
 	}
-	return hdr, pkg, decls
+	return hdr, pkg, imp, decls
 }
 
 func c20SplitName(base string) (name, ext string) {
@@ -1097,7 +1191,7 @@ func c20ScanTree(root string) (c20Case, error) {
 			if err != nil {
 				return err
 			}
-			f.Hdr, f.Pkg, f.Decls = c20ScanSource(string(data))
+			f.Hdr, f.Pkg, f.Imp, f.Decls = c20ScanSource(string(data))
 		}
 		c.Files = append(c.Files, f)
 		return nil
@@ -1148,7 +1242,11 @@ func TestVerifC20SelfCheck(t *testing.T) {
 				for len(hdr) > 0 && hdr[0].T == "B" {
 					hdr = hdr[1:]
 				}
-				s += "|" + f.Pkg + "|" + canonL(hdr, false, false)
+				imp := f.Imp
+				for len(imp) > 0 && imp[0].T == "B" {
+					imp = imp[1:]
+				}
+				s += "|" + f.Pkg + "|" + canonL(hdr, false, false) + "|" + canonL(imp, false, false)
 				for _, d := range f.Decls {
 					doc := d.Doc
 					for len(doc) > 0 && doc[0].T == "B" {
@@ -1158,7 +1256,7 @@ func TestVerifC20SelfCheck(t *testing.T) {
 					if len(tl) > 1 {
 						tl = tl[:1]
 					}
-					s += fmt.Sprintf(" {%s %s doc=%s body=%s tl=%s ta=%s}", d.Kind, d.Name, canonL(doc, false, false),
+					s += fmt.Sprintf(" {%s %s%s doc=%s body=%s tl=%s ta=%s}", d.Kind, d.Recv, d.Name, canonL(doc, false, false),
 						canonL(d.Body, true, true), canonL(tl, false, true), canonL(d.Ta, false, true))
 				}
 			}
